@@ -240,7 +240,10 @@ _NEG = {'==': '!=', '!=': '==', '<': '>=', '>=': '<', '>': '<=', '<=': '>',
 _PURE_BUILTINS = {
     'len': len, 'ord': ord, 'chr': chr, 'bool': bool, 'int': int, 'str': str,
     'abs': abs, 'min': min, 'max': max, 'tuple': tuple, 'sorted': sorted,
-    'bytes': bytes, 'repr': repr, 'float': float,
+    'bytes': bytes, 'repr': repr, 'float': float, 'list': list,
+    'reversed': lambda x: list(reversed(x)), 'set': set, 'dict': dict,
+    'sum': sum, 'any': any, 'all': all, 'range': lambda *a: list(range(*a)),
+    'enumerate': lambda x: list(enumerate(x)), 'zip': lambda *a: list(zip(*a)),
 }
 
 
